@@ -233,6 +233,8 @@ def corr(c, tier, rng):
     from props import planar_tri
     planar_tri.corr_planar(c, tier, rng)
     planar_tri.corr_triangular(c, tier, rng)
+    from props import oracles
+    oracles.corr_method_agreement(c, tier, rng)
 
 
 def scan_objects(rng):
@@ -339,6 +341,14 @@ def search(hints, tier, rng):
             wit.append(w)
             if len(wit) >= 5:
                 return wit
+    from props import oracles
+    skip = ("forward log-det", "inverse log-det", "Planar computes")      # C02's / C07's clauses
+    for w in (oracles.planar_violations(rng, 40 if tier == "quick" else 400, slopes=(None, 0.1, 0.5, 1.0)) + oracles.net_violations(rng, tier)
+              + oracles.nested_invert_violations(rng, 3)):
+        if not w["law"].startswith(skip):
+            wit.append(w)
+    if len(wit) >= 5:
+        return wit[:5]
     for obj, desc, bnd, toks in leaf_zoo(rng, 150 if tier == "quick" else 1000):
         inputs = list(dict.fromkeys([float(v) for v in bnd] + fj.generic_inputs(rng, 3)))
         # Exp/Tanh/SoftPlus have restricted codomains: only probe the forward direction's law plus in-range inverses
@@ -377,6 +387,9 @@ def rebuild(tokens):
 
 
 def replay(w):
+    if w.get("kind") in ("planar", "net", "nested_invert"):
+        from props import oracles
+        return bool(oracles.replay_witness(w))
     if w["tokens"][0] == "SCAN":
         import random
         return bool(search({}, "quick", random.Random(0)))
